@@ -422,6 +422,29 @@ def bounded(tier, seed):
                 return None
             run.case('C20:arlpackedbit reads a reference-encoded file', (nt, step_h, nz, ny, nx), t_file)
             if ci == 0:
+                # a grid with 1000 points or more in ONE direction (grid label 'A@' / '@A'): the thousands come from the label
+                for bny, bnx in ((3, 1002), (1001, 3)):
+                    byy, bxx = np.mgrid[:bny, :bnx]
+                    bf = {}
+                    for li in range(2):
+                        for k in (['PRSS'] if li == 0 else ['TEMP']):
+                            bf[0, li, k] = ({'PRSS': 1000., 'TEMP': 280.}[k] + 3. * np.sin(bxx / 30.) * np.cos(byy / 40.)).astype('f')
+                    braw, btruth = R.arl_encode(times[:1], 1.0, levels[:1], ['PRSS'], ['TEMP'], bf, bnx, bny)
+                    bpath = os.path.join(tmp, 'arl_big_%d_%d.bin' % (bny, bnx))
+                    open(bpath, 'wb').write(braw)
+
+                    def t_big(bpath=bpath, bf=bf, btruth=btruth, bny=bny, bnx=bnx):
+                        f = arlpackedbit(bpath)
+                        for k, li in (('PRSS', 0), ('TEMP', 1)):
+                            got = np.asarray(f.variables[k][0] if li == 0 else f.variables[k][0, 0], 'd')
+                            if got.shape != (bny, bnx):
+                                return 'field %s has shape %r, the file holds %d x %d points' % (k, got.shape, bny, bnx)
+                            recon, nexp = btruth[0, li, k]
+                            q = 2.0 ** (nexp - 7)
+                            if np.abs(got - np.asarray(bf[0, li, k], 'd')).max() > 1.5 * q * (1 + 1e-4) + np.abs(recon).max() * 1e-5:
+                                return 'field %s: error %g exceeds the bound %g' % (k, np.abs(got - bf[0, li, k]).max(), q)
+                        return None
+                    run.case('C20:arlpackedbit reads a grid with 1000 or more points in one direction', (bny, bnx), t_big)
                 # upper levels whose variable lists have the same LENGTH but differ (another order, another variable): every field
                 # comes back under its own name, level by level
                 lay = [['TEMP', 'UWND'], ['UWND', 'TEMP'], ['TEMP', 'RELH']]
